@@ -65,7 +65,13 @@ def run(ctx) -> None:
     r02_1(ctx)
     r02_2(ctx)
     r02_3(ctx)
-    r02_4(ctx)
+    # R02.4 states the window's structure (entry layout, position counters, wrapper class) for windows of any
+    # size; it applies when _largest has the shape it describes.  What nlargest / nsmallest *return* is decided by
+    # the table R02.8 whatever the shape; a differently shaped implementation is noted, not failed.
+    try:
+        r02_4(ctx)
+    except AnalysisError as exc:
+        ctx.note(f"R02.4 not applicable to this shape of _largest ({exc}); results are decided by R02.8 on its cube")
     r02_5(ctx)
     r02_6(ctx)
     r02_7(ctx)
@@ -83,7 +89,8 @@ def run(ctx) -> None:
     ctx.floor("agg_cells_decided", 600)
     ctx.floor("guard_cells", 12)
     ctx.floor("aggregations", 15)
-    ctx.floor("key_wrappers", 1)
+    ctx.floor("decided:heapq.nlargest", 100)
+    ctx.floor("decided:heapq.nsmallest", 100)
 
 
 # --------------------------------------------------------------------------- R02.1
@@ -339,10 +346,8 @@ def r02_4(ctx) -> None:
     comps = [n for n in own_nodes(node) if isinstance(n, ast.ListComp) and isinstance(n.elt, ast.Tuple) and len(n.elt.elts) == 3]
     repl = [n for n in own_nodes(node) if isinstance(n, ast.Call) and norm(n.func).endswith("heapreplace")
             and len(n.args) == 2 and isinstance(n.args[1], ast.Tuple) and len(n.args[1].elts) == 3]
-    ctx.check(len(comps) == 1 and len(repl) == 1, "R02.4", u, "_largest",
-              "heap entries (key, position, item) are built in the initial fill and in the replacement")
     if len(comps) != 1 or len(repl) != 1:
-        return
+        raise AnalysisError("the heap entries are not built by one comprehension and one heapreplace")
     sorts = [n for n in own_nodes(node) if isinstance(n, ast.Call) and isinstance(n.func, ast.Attribute) and n.func.attr == "sort"]
     ctx.check(len(sorts) == 1, "R02.4", u, "_largest", "the heap is finally sorted once")
     if len(sorts) != 1:
@@ -580,7 +585,7 @@ def r02_6(ctx) -> None:
         u = ctx.inlined(ctx.unit(short))  # the raise may sit in a private helper
         raises = [n for n in own_nodes(u.node) if isinstance(n, ast.Raise) and n.exc is not None]
         names = [raised_class(ctx, u, r) for r in raises]
-        ctx.check(names == [cls], "R02.6", u, raises[0] if raises else short,
+        ctx.check(bool(names) and set(names) == {cls}, "R02.6", u, raises[0] if raises else short,
                   f"empty input without default/initial raises {cls} like the builtin", witness=str(names))
     u = ctx.inlined(ctx.unit("functools.reduce"))  # the seed may be chosen by a private helper
     cfg = cfg_of(u)
